@@ -314,6 +314,9 @@ int assemble_code(
        address <= asm_context.memory.high_address;
        address++)
   {
+    // Only what was assembled: a gap between two .org's keeps what it had.
+    if (asm_context.memory.read_debug(address) == DL_EMPTY) { continue; }
+
     uint8_t value = asm_context.memory.read8(address);
     util_context.memory.write8(address, value);
   }
